@@ -665,6 +665,23 @@ pub fn e3_dynspace(ctx: &Ctx, name: &str, st: &mut Local, f: Sink) {
                 });
             }
         }
+        // distance symbols 30 / 31 (HDIST 31, 32) carrying code lengths: never usable, rejected by zlib, accepted
+        // by a reader that takes the RFC's 5-bit HDIST at face value; the model cannot vouch for the plaintext
+        for extra_syms in [vec![30usize], vec![31], vec![30, 31]] {
+            let mut syms = used_d.clone();
+            syms.extend(extra_syms.iter().copied());
+            for v in complete_vectors(syms.len(), maxl.min(5)) {
+                let mut d2 = vec![0u8; syms.last().unwrap() + 1];
+                for (k, &s) in syms.iter().enumerate() {
+                    d2[s] = v[k];
+                }
+                emit(st, &mut idx, true, &mut || {
+                    let mut c = dyn_case(toks, header_from_lengths(&ll, &d2), &plain, format!("list{} dist-lengths {:?} over {:?} (symbols >= 30 coded)", li, v, syms))?;
+                    c.plain = None;
+                    Some(c)
+                });
+            }
+        }
         // (c) code-length-code shapes: all complete vectors (lengths <= 7) over the clc symbols in use
         let used_c: Vec<usize> = (0..19).filter(|&i| base.clc[i] != 0).collect();
         if used_c.len() <= 6 {
@@ -1642,6 +1659,21 @@ pub fn e2_crossblock(ctx: &Ctx, name: &str, st: &mut Local, f: Sink) {
         let mut refs: Vec<Tok> = vec![Tok::Lit(b'a')];
         refs.extend(std::iter::repeat(r(3, 1)).take(66_000));
         cases.push(("dynamic block with 66000 equal references".into(), vec![Block::Dyn { hdr: default_header(&refs), toks: refs }]));
+        // counts that wrap to 0 or to a small number while other symbols have mid-sized counts: a counter that
+        // saturates, or wraps differently, predicts a different code
+        for (na, label) in [(65_536usize, "65536"), (65_541, "65541"), (131_075, "131075")] {
+            let mut t: Vec<Tok> = std::iter::repeat(Tok::Lit(b'a')).take(na).collect();
+            t.extend(std::iter::repeat(Tok::Lit(b'c')).take(2000));
+            t.extend(std::iter::repeat(Tok::Lit(b'b')).take(1000));
+            t.extend((0..40u8).map(|k| Tok::Lit(b'd' + k % 20)));
+            cases.push((format!("dynamic block with {} x 'a', 2000 x 'c', 1000 x 'b'", label), vec![Block::Dyn { hdr: default_header(&t), toks: t }]));
+        }
+        let mut t: Vec<Tok> = vec![Tok::Lit(b'a'), Tok::Lit(b'b'), Tok::Lit(b'a'), Tok::Lit(b'b'), Tok::Lit(b'c')];
+        t.extend(std::iter::repeat(r(3, 1)).take(65_536));
+        t.extend(std::iter::repeat(r(4, 2)).take(300));
+        t.extend(std::iter::repeat(r(5, 3)).take(100));
+        t.extend(std::iter::repeat(r(4, 1)).take(7));
+        cases.push(("dynamic block with 65536 x (3,1), 300 x (4,2), 100 x (5,3)".into(), vec![Block::Dyn { hdr: default_header(&t), toks: t }]));
     }
     let mut idx = 0u64;
     for (d, blocks) in cases {
@@ -1662,7 +1694,7 @@ pub fn e2_crossblock(ctx: &Ctx, name: &str, st: &mut Local, f: Sink) {
         deliver(ctx, name, st, i, case, f);
     }
     let e = st.eng(name);
-    e.bound = "3 single-block streams with more than 65535 occurrences of one symbol; 8 multi-block streams: a stored block (text / noise) followed by a fixed or dynamic block whose references reach into the stored bytes, with and without a leading huffman block".into();
+    e.bound = "7 single-block streams with more than 65535 occurrences of one symbol (counts wrapping to 0, 3 and 5 next to mid-sized counts); 8 multi-block streams: a stored block (text / noise) followed by a fixed or dynamic block whose references reach into the stored bytes, with and without a leading huffman block".into();
     e.exhaustive = true;
 }
 
